@@ -578,10 +578,12 @@ def flow_record(cx, source, behaviours, tag):
     return trace, None
 
 
-def flow_step(cx, behaviours=None, max_play=400):
+def flow_step(cx, behaviours=None, max_play=None):
     """Conversations recorded from the real server - the repository's own test suite and the harness's random
     sessions - judged by the handler-agnostic specification PgFlow. Only rejections that belong to this
     property are reported (the others belong to the checks of the properties they are attributed to)."""
+    if max_play is None:
+        max_play = int(os.environ.get("VERIF_FLOW_MAX", "4000" if cx.tier == "thorough" else "400"))
     sources = [("suite", None)]
     if behaviours:
         b = os.path.join(cx.scratch, "flow-beh.ndjson")
